@@ -15,3 +15,4 @@ import QV.Properties.C17
 import QV.Generated.ZoneFileDispatch
 import QV.Properties.C24
 import QV.Properties.C31
+import QV.Properties.C25
